@@ -173,15 +173,17 @@ def run(tier, seed):
     items = gen_items(chk, tier)
     tasks = [it['task'] for it in items]
     results = M.run_impl(tasks)
-    hist = {}; nontriv = set(); diff_fail = 0; both = 0
+    hist = {}; nontriv = set(); diff_fail = 0; both = 0; excluded = {}
     for it, res in zip(items, results):
         hist[it['src']] = hist.get(it['src'], 0) + 1
         if M.diff_failed(res): diff_fail += 1
         if isinstance(res, dict) and res.get('ld') and res.get('rd'):
             both += 1
             t = it['task']; nontriv.add(pyspec.canon([t['base'], t['local'], t['remote'], t.get('args')]))
-        sig, detail = M.judge_disjoint(res, it['expected'])
-        if sig:
+        sig, detail = M.judge_disjoint(res, it['expected'], respect_alignment=it['src'].startswith('nb-'))
+        if sig == 'excluded':
+            excluded[detail] = excluded.get(detail, 0) + 1
+        elif sig:
             chk.violation(sig, {'task': it['task'], 'expected': it['expected'], 'src': it['src']}, detail)
     fam = [it['src'] for it in items]
     seen = {}; rank = []
@@ -197,7 +199,7 @@ def run(tier, seed):
                 'the use-* strategies; non-trivial = BOTH sides have a non-empty diff, distinct by canonical JSON of the triple',
         'input_distribution': hist, 'traces_validated_against_impl': st['validated'], 'model_impl_mismatches': st['mismatches'],
         'outside_model_hook_reached': st['outside_model'], 'oracle_misses': st['oracle_misses'], 'model_lines': st['lines'],
-        'both_sides_changed': both, 'differ_failed_before_merge': diff_fail, 'exhaustive': False,
+        'both_sides_changed': both, 'excluded_outside_hypothesis': excluded, 'differ_failed_before_merge': diff_fail, 'exhaustive': False,
     })
     for it in items[:1] + items[len(items) // 2: len(items) // 2 + 1] + items[-1:]:
         chk.sample({'src': it['src'], 'task': it['task'], 'expected': it['expected']}, limit=3)
@@ -210,7 +212,8 @@ def replay(path):
         print(json.dumps(body['obligations'], indent=1, default=str)[:4000]); return 1
     c = body['case']
     res = M.run_impl([c['task']], shards=1)[0]
-    sig, detail = M.judge_disjoint(res, c['expected'])
+    sig, detail = M.judge_disjoint(res, c['expected'], respect_alignment=str(c.get('src', '')).startswith('nb-'))
+    if sig == 'excluded': sig = None
     print(json.dumps({'signature': sig, 'detail': detail}, indent=1, default=str)[:4000])
     if sig:
         print('VIOLATION property=%s replay=%s' % (PROP, path)); return 1
